@@ -711,6 +711,27 @@ func replay(path string) int {
 		fmt.Fprintf(os.Stderr, "replay: worker exited with %d: %s\n", r.exit, excerpt(r.stderr, 2000))
 		return 2
 	}
+	// a replayed run that meets a listed finding says so (KNOWN-FINDING, exit 0, as the checks do)
+	knownHit := false
+	for i := range r.raw {
+		var line struct {
+			KnownHits []sim.Violation `json:"known_hits"`
+			Counters  []string        `json:"counters"`
+		}
+		if json.Unmarshal(r.raw[i], &line) != nil {
+			continue
+		}
+		for _, cnt := range line.Counters {
+			if strings.HasPrefix(cnt, "known_finding.") {
+				id := strings.SplitN(strings.TrimPrefix(cnt, "known_finding."), "=", 2)[0]
+				fmt.Printf("KNOWN-FINDING: property=%s the replayed run reproduces listed finding %s\n", rf.Property, id)
+				knownHit = true
+			}
+		}
+	}
+	if knownHit {
+		return 0
+	}
 	fmt.Println("replay: the recorded violation did not reproduce on this tree")
 	return 0
 }
